@@ -27,6 +27,7 @@ type c10Peer struct {
 	// openconfirm-out, established-out, opensent-in, openconfirm-in,
 	// established-in, collision (out in OpenSent + in in OpenConfirm),
 	// collision2 (both in OpenSent), held-down, writers-in, writers-out,
+	// twins-in: three inbound connections back to back (at most one is served),
 	// idle-due / active-due: the stop is called at the instant the idle-hold /
 	// connect-retry timer fires and the next dial (which succeeds) is launched
 	Park     string `json:"park"`
@@ -205,6 +206,14 @@ func c10Prop(t *testing.T, r *hx.Run, sub string) func(c c10Case) hx.Verdict {
 					to(inbound(), stOpenConfirm)
 				case "collision2":
 					inbound()
+				case "twins-in":
+					for k := 0; k < 3; k++ {
+						cn := w.Inbound(sp.Remote, "10.0.0.1")
+						if k == 0 {
+							conns[fmt.Sprintf("%d/in", i)] = cn
+						}
+					}
+					w.Settle()
 				case "held-down":
 					cn := inbound()
 					bad := wire.Keepalive()
@@ -609,7 +618,7 @@ func c10Prop(t *testing.T, r *hx.Run, sub string) func(c c10Case) hx.Verdict {
 	}
 }
 
-var c10Parks = []string{"idle-due", "active-due", "idle", "dial-stalled", "dial-held", "active", "opensent-out", "openconfirm-out", "established-out",
+var c10Parks = []string{"idle-due", "active-due", "twins-in", "idle", "dial-stalled", "dial-held", "active", "opensent-out", "openconfirm-out", "established-out",
 	"opensent-in", "openconfirm-in", "established-in", "collision", "collision2", "held-down", "writers-in", "writers-out"}
 
 func genC10(rt *rapid.T) c10Case {
